@@ -27,7 +27,7 @@ from collections import Counter
 from typing import Any, Callable
 
 from .. import core, escommon
-from ..gen import macros as G
+from ..gen import macros_c05 as G
 from ..gen import surface
 
 MODULES = ["ESV.Props.C05"]
@@ -46,7 +46,7 @@ FAKE_ROOT = "/T/R"      # two levels, like the real roots /tmp/<dir>
 # "topo" = the verified repair `topoOrder` (stable Kahn: repeatedly the first vertex, in creation order, all of whose callees
 # are emitted).  After a `fix:` commit that replaces the merge by exactly that loop, set this to "topo" (the theorems
 # topoOrder_topological / topoOrder_complete then apply without guard) and drop the known finding macro_order_not_topological.
-ORDER_FIELD = os.environ.get("VERIF_C05_ORDER_FIELD", "order")
+ORDER_FIELD = os.environ.get("VERIF_C05_ORDER_FIELD", "topo")
 # What `exists` means for the model of `_resolve_imported_file`: "tree" = os.path.exists (files and directories, the pinned code);
 # "tree_files" = os.path.isfile (after a repair of known finding import_candidate_is_directory)
 EXISTS_FIELD = os.environ.get("VERIF_C05_EXISTS", "tree_files")
@@ -874,7 +874,7 @@ def run(run: core.Run) -> int:
         "checker_cmd": "lake build ESV.Props.C05; esvdrive beh.validate / beh.validate_mm (search + verified check), macro.order, macro.resolve",
         "trusted_base": ["Lean 4.33 kernel + propext/Classical.choice/Quot.sound", "Lean compiler for executing the validator and the models in the driver",
                          "harness lowering table harness/gen/surface.py and printer (cross-checked against the repo's parser on a sample)",
-                         "harness textual inliner (harness/gen/macros.py:Inliner) for the metamorphic oracle",
+                         "harness textual inliner (harness/gen/macros_c05.py:Inliner) for the metamorphic oracle",
                          "harness reading of the import rules of docs/language_spec.rst (doc_resolve)", "igraph is modelled as used (vertex/edge creation order, bfsiter), compared on every run"],
         "theorems": THEOREMS, "axioms": aud.get("theorems", {}), "tables": prep.get("tables"),
         "outcomes": {k: v for k, v in sorted(stats.items())}, "generator": gstats,
